@@ -79,10 +79,16 @@ Print Assumptions C11_B4_forward_decl_refuted.
 (* a.lua: for i = 1, f(function(yy)\nreturn yy end),\ng(function() end) do end\n *)
 Definition w_B5_for_step_order : list (list N * list N) :=
   [([97; 46; 108; 117; 97], [102; 111; 114; 32; 105; 32; 61; 32; 49; 44; 32; 102; 40; 102; 117; 110; 99; 116; 105; 111; 110; 40; 121; 121; 41; 10; 114; 101; 116; 117; 114; 110; 32; 121; 121; 32; 101; 110; 100; 41; 44; 10; 103; 40; 102; 117; 110; 99; 116; 105; 111; 110; 40; 41; 32; 101; 110; 100; 41; 32; 100; 111; 32; 101; 110; 100; 10])].
-(* numeric for visits init, STEP, limit: a function scope of the step is stored before the function scopes of the limit, FindMinScope's early exit (`subScope.StartLine > line => break`) then never reaches a function in the limit that starts on an earlier line: its parameters/locals resolve to nothing and are not completed *)
-Theorem C11_B5_for_step_order_refuted : refs_deviates MRename w_B5_for_step_order [97; 46; 108; 117; 97] 1 8 = true.
+(* B5, FIXED (fixes/C05-for-step-order.diff): numeric for visited init, STEP, limit: a function scope of the step was stored
+   before the function scopes of the limit, FindMinScope's early exit (`subScope.StartLine > line => break`) then never
+   reached a function in the limit that starts on an earlier line: its parameters/locals resolved to nothing and were not
+   completed.  The witness deviates for the code before the repair (`no_fixes`) and no longer for the code in /repo. *)
+Theorem C11_B5_for_step_order_refuted_before_fix : refs_deviates_fx no_fixes w_B5_for_step_order MRename [97; 46; 108; 117; 97] 1 8 = true.
 Proof. vm_compute. reflexivity. Qed.
-Print Assumptions C11_B5_for_step_order_refuted.
+Print Assumptions C11_B5_for_step_order_refuted_before_fix.
+Theorem C11_B5_for_step_order_fixed : refs_deviates MRename w_B5_for_step_order [97; 46; 108; 117; 97] 1 8 = false.
+Proof. vm_compute. reflexivity. Qed.
+Print Assumptions C11_B5_for_step_order_fixed.
 
 (* a.lua: local x = 1\nreturn x *)
 Definition w_doc_end : list (list N * list N) :=
